@@ -42,6 +42,7 @@ func runC03(p *load.Program, r *oblig.Report) {
 	c03CoordinatorLookup(p, r)
 	c03ReadMessageKeeps(p, r)
 	c03SyncGroupMembers(p, r)
+	c03StartOffsetOnMiss(p, r)
 	shareRules(r, "C03", "C03.R14 the leader assigns the partitions of every topic a member subscribes to (C14.R4)", func(sub *oblig.Report) { c14Leader(p, sub) })
 }
 
